@@ -80,19 +80,35 @@ def _strip_not(expr):
     return expr, n
 
 
-def classify_call(prog, finfo):
+def classify_call(prog, finfo, self_cls=None):
     """Classify a check class' __call__.
 
     Returns dict(sem=..., attr=..., calls=[_check call nodes (expanded)]).
-    sem in and/or/not/true/false/leaf/unknown.
+    sem in and/or/not/true/false/leaf/unknown.  Helpers of the module are
+    inlined (not the adapter `_check` itself); class-level constants are
+    those of the concrete class; results are reduced to their truth.
     """
-    en = Enumerator(prog, finfo, handler_paths=True)
+    from .dte import inline_helpers
+    en = Enumerator(prog, finfo, handler_paths=True, self_cls=self_cls,
+                    split_returns=True, max_depth=4,
+                    inline=inline_helpers(prog, modules={CHECKS},
+                                          exclude={CHECKS + '._check'}))
     paths = en.run()
     info = {'sem': 'unknown', 'attr': None, 'calls': [], 'paths': len(paths),
             'why': ''}
     # collect every _check call in the function
     check_calls = [n for n in ast.walk(finfo.node) if isinstance(n, ast.Call)
                    and _is_check_call(prog, finfo, n)]
+    for p in paths:
+        for ev in p.events:
+            if ev.kind in ('call', 'maycall') and _is_check_call(
+                    prog, finfo, ev.node):
+                check_calls.append(ev.node)
+        for c in p.conds:
+            for n in ast.walk(c.expr) if isinstance(c.expr, ast.AST) else ():
+                if isinstance(n, ast.Call) and _is_check_call(prog, finfo,
+                                                              n):
+                    check_calls.append(n)
     info['calls'] = check_calls
     if not check_calls:
         outs = set()
@@ -361,7 +377,7 @@ def check_classes(prog):
             cc.sem = 'abstract'
             out[q] = cc
             continue
-        info = classify_call(prog, call)
+        info = classify_call(prog, call, self_cls=q)
         cc.sem = info['sem']
         cc.child_attr = info['attr']
         cc.call_info = info
@@ -469,7 +485,10 @@ class EffectError(AnalysisError):
 def effect_of(prog, classes, finfo):
     """Effect term of a reducer method: list of (kind, term)."""
     params = finfo.params[1:]
-    en = Enumerator(prog, finfo, handler_paths=False)
+    from .dte import inline_helpers
+    en = Enumerator(prog, finfo, handler_paths=False, max_depth=4,
+                    inline=inline_helpers(prog, modules={PARSER},
+                                          classes=False))
     paths = en.run()
     where = '%s:%d %s' % (finfo.module.path, finfo.node.lineno, finfo.qual)
 
